@@ -11,7 +11,7 @@ generated from the source (`Gen/C05Productions.lean`).
 
 Partial Python operations are partial here: `int(…, 16)` in `_repl` (`ValueError`), `found[0]` (`IndexError`);
 where Python would loop for ever (no production matches, or a match of length 0: `pos += 0`) the model stops
-with `Stop.stuck`. Not modelled: `self._pushed` (`yield from self._pushed`, :155) — it is empty unless a caller
+with `Stop.stuck`. Not modelled: `self._pushed` (`yield from self._pushed`, :163) — it is empty unless a caller
 pushed tokens back (C12), so `tokenize` is modelled for a tokenizer whose push-back list is empty.
 
 Core Lean only (the driver links this file).
@@ -23,7 +23,7 @@ abbrev Cps := List Nat
 
 /-! ## small Python string helpers -/
 
-/-- `has_at(text, pos, string)` (:268-280): `text[pos:pos+len(string)] == string` -/
+/-- `has_at(text, pos, string)` (:276-288): `text[pos:pos+len(string)] == string` -/
 def hasAt (s str : Cps) : Bool := s.take str.length == str
 
 def isHex (c : Nat) : Bool := (48 ≤ c && c ≤ 57) || (65 ≤ c && c ≤ 70) || (97 ≤ c && c ≤ 102)
@@ -42,15 +42,19 @@ def pyIntHex (t : Cps) : Option Nat :=
   if (t.takeWhile isHex).isEmpty then none
   else if (t.dropWhile isHex).all pyWs then some (hexNum (t.takeWhile isHex)) else none
 
-/-- `_repl` (:112-124), `m` = `m.group(0)` -/
+/-- `_repl` (:117-132), `m` = `m.group(0)` -/
 def repl (m : Cps) : Option Cps :=
-  if m == [92, 92] then some m                                    -- :114-116 escaped backslash, kept as is
-  else match pyIntHex (m.drop 1) with                            -- :117
-    | none => none
-    | some num =>
-      if num == 0x5C then some [92, 92]                           -- :118-120
-      else if num ≤ 0x10FFFF then some [num]                      -- :121-122 sys.maxunicode
-      else some m                                                 -- :124
+  if m == [92, 92] then some m                                    -- :119-121 escaped backslash, kept as is
+  else match m with
+    | _ :: d :: _ =>
+      if d == 10 || d == 13 || d == 12 then some []               -- :122-124 line continuation (stringsub only)
+      else match pyIntHex (m.drop 1) with                        -- :125
+        | none => none
+        | some num =>
+          if num == 0x5C then some [92, 92]                       -- :126-128
+          else if num ≤ 0x10FFFF then some [num]                  -- :129-130 sys.maxunicode
+          else some m                                             -- :132
+    | _ => none                                                   -- m.group(0)[1]: IndexError
 
 /-- `pattern.sub(repl, s)` for a pattern that cannot match the empty string: leftmost, non-overlapping
 matches. The `Nat` argument counts code points still inside the previous match. `none` = `repl` raised, or the
@@ -67,11 +71,11 @@ def subGo (r : Re) (f : Cps → Option Cps) : Cps → Nat → Option Cps
       | some a, some b => some (a ++ b)
       | _, _ => none
 
-/-- `self.unicodesub(_repl, value)` (:31, :224) -/
+/-- `self.unicodesub(_repl, value)` (:31, :231) -/
 def subU (s : Cps) : Option Cps := subGo unicodesubRe repl s 0
 
-/-- `self.cleanstring('', value)` (:32, :227) -/
-def subClean (s : Cps) : Option Cps := subGo cleanstringRe (fun _ => some []) s 0
+/-- `self.stringsub(_repl, found)` (:35-37, :234): escapes decoded and backslash-newline dropped in one pass -/
+def subS (s : Cps) : Option Cps := subGo stringsubRe repl s 0
 
 /-- `str.lower()` as far as ASCII can be produced: `A-Z`, U+212A KELVIN SIGN ↦ `k`, U+0130 ↦ `i` U+0307.
 Every other code point above 127 lowers to non-ASCII text (checked exhaustively by the harness), and the
@@ -86,7 +90,7 @@ def normalize (x : Cps) : Option Cps :=
   if x.isEmpty then some x
   else (subGo simpleescapesRe (fun m => some (m.drop 1)) x 0).map pyLower
 
-/-- `_normalize` (:126-128) -/
+/-- `_normalize` (:134-136) -/
 def normalizeU (v : Cps) : Option Cps :=
   match subU v with
   | none => none
@@ -95,8 +99,8 @@ def normalizeU (v : Cps) : Option Cps :=
 /-! ## tokens -/
 
 /-- one step of the loop: the token tuple `(typ, value, line, col)`, the source code points the step consumed
-(`span`), `found` as used for the `pos/line/col` arithmetic (`span` plus a completion, :199/:208/:241), and
-whether the tuple is yielded (comment filter, :247-250). -/
+(`span`), `found` as used for the `pos/line/col` arithmetic (`span` plus a completion, :207/:216/:249), and
+whether the tuple is yielded (comment filter, :255-258). -/
 structure Item where
   typ : String
   value : Cps
@@ -127,35 +131,35 @@ deriving Repr, BEq, DecidableEq
 
 def Res.cons (it : Item) (r : Res) : Res := ⟨it :: r.items, r.stop⟩
 
-/-- :252-258 `pos += len(found)` is the caller's `drop`; this is the line/col part -/
+/-- :260-266 `pos += len(found)` is the caller's `drop`; this is the line/col part -/
 def advance (line col : Nat) (found : Cps) : Nat × Nat :=
   if found.count 10 ≠ 0 then
     (line + found.count 10, (found.reverse.takeWhile (· != 10)).length + 1)   -- len(found[found.rfind('\n'):])
   else (line, col + found.length)
 
-/-! ## the production scan (:166-194) -/
+/-! ## the production scan (:174-202) -/
 
 inductive Scan where
   | nomatch                           -- the `for` ran to its end without `break`
-  | comment (v : Cps)                 -- :168-175 unterminated comment completed (full sheet)
+  | comment (v : Cps)                 -- :176-183 unterminated comment completed (full sheet)
   | hit (name : String) (l : Nat)     -- production `name` matched `l` code points at `pos`
 deriving Repr, BEq, DecidableEq
 
-/-- :188-194 an IDENT directly followed by `(` is skipped so that FUNCTION takes over — except `and` -/
+/-- :196-202 an IDENT directly followed by `(` is skipped so that FUNCTION takes over — except `and` -/
 def identContinue (name : String) (s : Cps) (l : Nat) : Bool :=
   name == "IDENT" && pyLower (s.take l) != andWord && decide (l < s.length) && s[l]? == some 40
 
 def scan (full doC : Bool) (s : Cps) : List (String × Re) → Scan
   | [] => .nomatch
   | (name, r) :: ps =>
-    if full && name == "CHAR" && hasAt s commentOpen                       -- :168
-        && (commentRe.first (s ++ commentClose)).isSome && doC then        -- :170-172
-      .comment (s ++ commentClose)                                         -- :173-175
-    else match r.first s with                                              -- :177
+    if full && name == "CHAR" && hasAt s commentOpen                       -- :176
+        && (commentRe.first (s ++ commentClose)).isSome && doC then        -- :178-180
+      .comment (s ++ commentClose)                                         -- :181-183
+    else match r.first s with                                              -- :185
       | none => scan full doC s ps
       | some l => if identContinue name s l then scan full doC s ps else .hit name l
 
-/-- :204-209 `for end in ("')", '")', ')')` -/
+/-- :212-217 `for end in ("')", '")', ')')` -/
 def tryEnds (s : Cps) : List Cps → Option Cps
   | [] => none
   | e :: es =>
@@ -168,20 +172,20 @@ structure NF where
   found : Cps
 deriving Repr, BEq, DecidableEq
 
-/-- :195-209 full-sheet completion; `none` = exception -/
+/-- :203-217 full-sheet completion; `none` = exception -/
 def complete (full : Bool) (s : Cps) (name : String) (found : Cps) : Option NF :=
   if full then
-    if name == "INVALID" && s == found then                                -- :197 suffix_eq
+    if name == "INVALID" && s == found then                                -- :205 suffix_eq
       match found with
-      | q :: _ => some ⟨"STRING", found ++ [q]⟩                            -- :199
+      | q :: _ => some ⟨"STRING", found ++ [q]⟩                            -- :207
       | [] => none                                                         -- found[0]
-    else if name == "FUNCTION" then                                        -- :201
+    else if name == "FUNCTION" then                                        -- :209
       match normalizeU found with
       | none => none
       | some n =>
         if n == urlFn then
           match tryEnds s uriEnds with
-          | some u => some ⟨"URI", u⟩                                       -- :208
+          | some u => some ⟨"URI", u⟩                                       -- :216
           | none => some ⟨name, found⟩
         else some ⟨name, found⟩
     else some ⟨name, found⟩
@@ -193,41 +197,41 @@ structure NVF where
   found : Cps
 deriving Repr, BEq, DecidableEq
 
-/-- :211-245 value of the token (`s` = text from `pos` on); `none` = exception -/
+/-- :219-253 value of the token (`s` = text from `pos` on); `none` = exception -/
 def valueOf (s : Cps) (name : String) (found : Cps) : Option NVF :=
-  if unescTypes.contains name then                                         -- :211-221
-    match subU found with                                                  -- :224
-    | none => none
-    | some v =>
-      if cleanTypes.contains name then                                     -- :225
-        match subClean v with                                              -- :227
-        | none => none
-        | some w => some ⟨name, w, found⟩
-      else some ⟨name, v, found⟩
-  else if name == "ATKEYWORD" then                                         -- :230
-    match normalizeU found with                                            -- :233
+  if unescTypes.contains name then                                         -- :219-228
+    if cleanTypes.contains name then                                       -- :232 STRING, INVALID, URI
+      match subS found with                                                -- :234
+      | none => none
+      | some v => some ⟨name, v, found⟩
+    else
+      match subU found with                                                -- :236
+      | none => none
+      | some v => some ⟨name, v, found⟩
+  else if name == "ATKEYWORD" then                                         -- :238
+    match normalizeU found with                                            -- :241
     | none => none
     | some k =>
       match atkeywords.lookup k with
       | some sym => some ⟨sym, found, found⟩
-      | none =>                                                            -- :234 KeyError
-        if found == charsetKw && hasAt (s.drop found.length) charsetSep then   -- :236-238
-          some ⟨charsetSym, found ++ charsetSep, found ++ charsetSep⟩      -- :240-241
-        else some ⟨"ATKEYWORD", found, found⟩                              -- :243
-  else some ⟨name, found, found⟩                                           -- :245
+      | none =>                                                            -- :242 KeyError
+        if found == charsetKw && hasAt (s.drop found.length) charsetSep then   -- :244-246
+          some ⟨charsetSym, found ++ charsetSep, found ++ charsetSep⟩      -- :248-249
+        else some ⟨"ATKEYWORD", found, found⟩                              -- :251
+  else some ⟨name, found, found⟩                                           -- :253
 
-/-! ## the main loop (:153-262) -/
+/-! ## the main loop (:161-270) -/
 
 def loop (full doC : Bool) : Nat → Cps → Nat → Nat → Res
   | 0, s, _, _ => ⟨[], .noFuel s⟩
-  | _ + 1, [], line, col => ⟨[], .done line col⟩                            -- :153
+  | _ + 1, [], line, col => ⟨[], .done line col⟩                            -- :161
   | fuel + 1, c :: t, line, col =>
-    if fastChars.contains c then                                           -- :159-162
+    if fastChars.contains c then                                           -- :167-170
       Res.cons ⟨"CHAR", [c], line, col, [c], [c], true⟩ (loop full doC fuel t line (col + 1))
     else
       match scan full doC (c :: t) productions with
       | .nomatch => ⟨[], .stuck (c :: t)⟩
-      | .comment v =>                                                      -- :173-175 `pos = _len_text`, no line/col update
+      | .comment v =>                                                      -- :181-183 `pos = _len_text`, no line/col update
         ⟨[⟨"COMMENT", v, line, col, c :: t, v, true⟩], .done line col⟩
       | .hit name l =>
         match complete full (c :: t) name ((c :: t).take l) with
@@ -239,11 +243,11 @@ def loop (full doC : Bool) : Nat → Cps → Nat → Nat → Res
             if x.found.length = 0 then ⟨[], .stuck (c :: t)⟩               -- `pos += 0`: spins for ever
             else
               Res.cons ⟨x.name, x.value, line, col, (c :: t).take x.found.length, x.found,
-                        doC || x.name != "COMMENT"⟩                        -- :247-250
-                (loop full doC fuel ((c :: t).drop x.found.length)          -- :252
-                  (advance line col x.found).1 (advance line col x.found).2)  -- :253-258
+                        doC || x.name != "COMMENT"⟩                        -- :255-258
+                (loop full doC fuel ((c :: t).drop x.found.length)          -- :260
+                  (advance line col x.found).1 (advance line col x.found).2)  -- :261-266
 
-/-- text after the BOM (:136-141) -/
+/-- text after the BOM (:144-149) -/
 def afterBom (text : Cps) : Cps :=
   match bomRe.first text with
   | some l => text.drop l
@@ -251,10 +255,10 @@ def afterBom (text : Cps) : Cps :=
 
 def bomItems (text : Cps) : List Item :=
   match bomRe.first text with
-  | some l => [⟨bomName, text.take l, 1, 1, text.take l, text.take l, true⟩]   -- :140 (col is not advanced)
+  | some l => [⟨bomName, text.take l, 1, 1, text.take l, text.take l, true⟩]   -- :148 (col is not advanced)
   | none => []
 
-/-- :144-148 -/
+/-- :152-156 -/
 def charsetItems (s1 : Cps) : List Item :=
   if hasAt s1 charsetStart then [⟨charsetSym, charsetStart, 1, 1, charsetStart, charsetStart, true⟩] else []
 
@@ -263,10 +267,10 @@ def afterCharset (s1 : Cps) : Cps := if hasAt s1 charsetStart then s1.drop chars
 def startCol (s1 : Cps) : Nat := if hasAt s1 charsetStart then 1 + charsetStart.length else 1
 
 def eofItems (full : Bool) : Stop → List Item
-  | .done line col => if full then [⟨"EOF", [], line, col, [], [], true⟩] else []   -- :264-265
+  | .done line col => if full then [⟨"EOF", [], line, col, [], [], true⟩] else []   -- :272-273
   | _ => []
 
-/-- the `while` loop (:153-262) on the text after BOM and `@charset ` -/
+/-- the `while` loop (:161-270) on the text after BOM and `@charset ` -/
 def mainLoop (text : Cps) (full doC : Bool) : Res :=
   loop full doC ((afterCharset (afterBom text)).length + 1) (afterCharset (afterBom text)) 1 (startCol (afterBom text))
 
